@@ -175,6 +175,8 @@ def variant(text, rng, kind):
         return use_comments(text, rng)
     if kind == "blockcomments":
         return block_comments(text, rng)
+    if kind == "preproc":
+        return preproc_lines(text, rng)
     raise ValueError(kind)
 
 
@@ -215,12 +217,45 @@ def block_comments(text, rng, p=0.06):
     return "\n".join(out)
 
 
+def preproc_lines(text, rng, p=0.06):
+    """preprocessor lines (`#ifdef X` ... `#endif`, what classify/preprocessor.py recognises: first non-blank
+    character `#`) on lines of their own in front of some lines, in column 0 or indented by blanks, sometimes with a
+    blank line before or after: C02 wants them to survive every fix verbatim, C03 counts them as non-layout text"""
+    lines = text.split("\n")
+    ok = set(_outside_delimited(lines))
+    out = []
+    depth = 0
+    for i, line in enumerate(lines):
+        s = line.strip()
+        if i in ok and s and i > 0 and rng.random() < p:
+            ind = " " * rng.choice([0, 0, 0, len(line) - len(line.lstrip())])
+            if depth and rng.random() < 0.6:
+                d = rng.choice(["#endif", "#endif", "#else"])
+                if d == "#endif":
+                    depth -= 1
+            else:
+                d = rng.choice(["#ifdef SIMULATION", "#ifndef SYNTHESIS", "#if defined(X)", "#define WIDTH 8", "#pragma once"])
+                if d.startswith("#if"):
+                    depth += 1
+            if rng.random() < 0.25:
+                out.append("")
+            out.append(ind + d)
+            if rng.random() < 0.25:
+                out.append("")
+        out.append(line)
+    while depth:
+        # close what is open in front of the last line so that the file still reads sensibly
+        out.insert(len(out) - 1, "#endif")
+        depth -= 1
+    return "\n".join(out)
+
+
 def _outside_delimited(lines):
     """indexes of the lines that are not inside (or touching) a delimited comment or a preprocessor line"""
     ok = []
     inside = False
     for i, line in enumerate(lines):
-        if inside or "/*" in line or "*/" in line or line.lstrip().startswith("`"):
+        if inside or "/*" in line or "*/" in line or line.lstrip().startswith(("`", "#")):
             if "/*" in line and "*/" not in line.split("/*")[-1]:
                 inside = True
             elif "*/" in line:
@@ -288,7 +323,7 @@ def with_code_tags(text, rng, p_region=0.12):
     return "\n".join(out)
 
 
-VARIANTS = ["ws", "case", "comments", "lines", "messy", "tabs", "splitall", "glue", "flush", "codetags", "usecomments", "blockcomments"]
+VARIANTS = ["ws", "case", "comments", "lines", "messy", "tabs", "splitall", "glue", "flush", "codetags", "usecomments", "blockcomments", "preproc"]
 
 
 # ------------------------------------------------------------------ configurations
